@@ -17,7 +17,18 @@ ASSUMPTIONS = [
 
 
 def build(ctx):
+    ctx.bt_huge = True
     bt.build(ctx)
+    # known finding outside the modelled configurations: replay its witness on the implementation
+    for f in ctx.findings:
+        if f["id"] == "C02-ITER-UINT16":
+            bad, detail = bt.uint16_witness(ctx)
+            if bad:
+                ctx.known_line(f["id"], f["what"])
+                ctx.known_hits.setdefault(f["id"], 0)
+                ctx.notes.append("C02-ITER-UINT16 witness: " + detail)
+            else:
+                ctx.notes.append("known finding C02-ITER-UINT16 no longer reproduces: " + detail)
 
 
 def corpus(ctx):
